@@ -14,8 +14,10 @@ KNOWN = json.load(open(os.path.join(VERIF, "known_findings.json"))).get("finding
 def work(t):
     q, part = t
     rep = verify_function(prog, reg, q, part=part)
+    fi = prog.funcs.get(q.split("@")[0].split("#")[0])
     return {"function": q, "status": rep["status"], "error": rep.get("error"), "vc_hash": rep.get("vc_hash"),
             "fingerprint": rep.get("fingerprint"),
+            "locals_order": fi.locals_order() if fi else None, "alpha_hash": fi.alpha_hash() if fi else None,
             "obs": [(o["name"], o.get("tactic"), o["result"]) for o in rep["obligations"]]}
 
 if __name__ == "__main__":
@@ -31,6 +33,7 @@ if __name__ == "__main__":
     with mp.get_context("fork").Pool(int(os.environ.get("PROCS", "12")), maxtasksperchild=1) as pool:
         for r in pool.imap_unordered(work, tasks):
             f = funcs.setdefault(r["function"], {"status": r["status"], "vc_hash": r["vc_hash"], "fingerprint": r["fingerprint"],
+                                                 "locals_order": r.get("locals_order"), "alpha_hash": r.get("alpha_hash"),
                                                  "obligations": 0, "proved": 0, "error": r["error"]})
             for name, tactic, result in r["obs"]:
                 f["obligations"] += 1
